@@ -440,8 +440,8 @@ pub fn check(which: Which, tier: Tier) -> i32 {
     let ctx = Ctx::new(id, tier);
     replay_corpus::<GCase, _>(&ctx, |c, n| run_case(which, c, n));
     let cases = match which {
-        Which::C01 => tier.pick(3000, 60000),
-        Which::C03 => tier.pick(3000, 50000),
+        Which::C01 => tier.pick(6000, 60000),
+        Which::C03 => tier.pick(6000, 60000),
     };
     drive(&ctx, "main", cases, || case_strategy(which), |c, n| run_case(which, c, n));
     cleanup_process_scratch();
